@@ -82,10 +82,12 @@ def cases(tier):
     names = Q.members(tier)
     if tier == "quick":
         names = list(Q.U1())[:7]
-    return [(backend, S, tier) for backend in ("sql", "kv") for S in Q.subsets(names)]
+    return [(backend, S, tier) for backend in ("sql", "kv") for S in Q.subsets(names)] + SCHEDMODE.cases(tier)
 
 
 def describe(case):
+    if case[0] == "sched":
+        return SCHEDMODE.describe(case)
     return {"backend": case[0], "store": list(case[1]), "tier": case[2]}
 
 
@@ -149,7 +151,69 @@ def judge(store_events, filters, evs, eose, closed):
     return v
 
 
+# ---------------------------------------------------------------------------------------------------
+# Two connections ask at once with different limits (SCHED): each answer obeys its own limit and holds the newest matches.
+import json  # noqa: E402
+
+from ..schedmode import SchedMode  # noqa: E402
+from ..universe import make_event  # noqa: E402
+
+S_EVS = [make_event("A" if i % 2 else "B", 1, 10 * (i + 1), [["t", "x"]], "n%d" % i) for i in range(5)]  # created_at 10..50
+S_SCRIPTS = {
+    "two_limits": [("c1", ["REQ", "a", {"kinds": [1], "limit": 1}]), ("c2", ["REQ", "b", {"kinds": [1], "limit": 2}])],
+    "limit_vs_none": [("c1", ["REQ", "a", {"#t": ["x"], "limit": 1}]), ("c2", ["REQ", "b", {"kinds": [1]}])],
+    "zero_vs_two": [("c1", ["REQ", "a", {"kinds": [1], "limit": 0}]), ("c2", ["REQ", "b", {"kinds": [1], "limit": 2}]), ("c1", ["REQ", "c", {"kinds": [1], "limit": 10}])],
+    "same_filter_other_limit": [("c1", ["REQ", "a", {"kinds": [1], "limit": 2}]), ("c2", ["REQ", "a", {"kinds": [1], "limit": 1}]), ("c1", ["REQ", "d", {"kinds": [1], "limit": 1}])],
+}
+
+
+def _s_build(name, backend, policy):
+    from ..explorer import Scenario
+
+    def setup(w):
+        f = w.connect("setup", "9.9.9.9")
+        w.run(1e6)
+        for ev in S_EVS:
+            w.send("setup", ["EVENT", ev], 1e6)
+        f.drop()
+        w.run(1e6)
+        del w.conns["setup"]
+
+    return Scenario("%s%s|%s" % (name, "@fair" if policy == "fair" else "", backend), backend, [("c1", "1.1.1.1"), ("c2", "2.2.2.2")], S_SCRIPTS[name],
+                    storage_options={"stats_interval": 1e15}, setup=setup, horizon=30.0, policy=policy, max_limit=MAX_LIMIT)
+
+
+def _s_judge(x, name, backend, viol, cid, sig):
+    newest = [e["id"] for e in sorted(S_EVS, key=lambda e: -e["created_at"])]
+    for cn, fr in S_SCRIPTS[name]:
+        sid, f = fr[1], fr[2]
+        want = eff(f)
+        got = []
+        eose = 0
+        for k, _, p in x.world.conns[cn].transcript:
+            if k == "send":
+                m = json.loads(p)
+                if m[0] == "EVENT" and m[1] == sid:
+                    got.append(m[2]["id"])
+                elif m[0] == "EOSE" and m[1] == sid:
+                    eose += 1
+        if eose != 1:
+            viol.append({"case": cid, "clause": "answered-with-eose", "sig": sig + "|%s|%s" % (cn, sid), "detail": "%d EOSE frames for %s/%s" % (eose, cn, sid)})
+            continue
+        if len(got) > want:
+            viol.append({"case": cid, "clause": "at-most-limit", "sig": sig + "|%s|%s" % (cn, sid),
+                         "detail": "%s/%s asked for limit %r (effective %d) and received %d events" % (cn, sid, f.get("limit"), want, len(got))})
+        elif set(got) != set(newest[:want]):
+            viol.append({"case": cid, "clause": "newest-first" if len(got) == want else "limit-does-not-starve-a-filter", "sig": sig + "|%s|%s" % (cn, sid),
+                         "detail": "%s/%s (effective limit %d, 5 matches) received %d events, expected exactly the %d newest" % (cn, sid, want, len(got), want)})
+
+
+SCHEDMODE = SchedMode(S_SCRIPTS, _s_build, _s_judge, max_limit=MAX_LIMIT)
+
+
 def run_case(case):
+    if case[0] == "sched":
+        return SCHEDMODE.run(case)
     backend, S, tier = case
     uni = Q.U1()
     sess = seq.session(backend, max_limit=MAX_LIMIT)
@@ -178,10 +242,11 @@ def run_case(case):
 
 def coverage(tier, agg):
     return {
-        "rule": "Config.max_limit=3; stores = all subsets of the first %d members of U1; filter lists = %d (base filters single/multi-value/"
+        "rule": ("Config.max_limit=3; stores = all subsets of the first %d members of U1; filter lists = %d (base filters single/multi-value/"
                 "multi-condition x limit in {absent,0,1,2,3,4,10}; 2- and 3-filter REQs with mixed limits); oracle: events attributable to one "
                 "filter <= min(limit,max_limit); single filter: no left-out strict match newer than a sent one; matches <= limit => none missing; "
-                "non-trivial case = store where at least one filter has more matches than its effective limit" % (
+                "non-trivial case = store where at least one filter has more matches than its effective limit" + SCHEDMODE.rule() + ": two connections ask at once with "
+                "different limits over five matching events; each answer has exactly min(limit, max_limit) events, the newest ones") % (
                     7 if tier == "quick" else len(Q.members(tier)), len(filters_for(tier))),
         "limits": [str(x) for x in LIMITS],
         "backends": ["sql", "kv"],
@@ -189,7 +254,10 @@ def coverage(tier, agg):
 
 
 def replay(desc):
-    r = run_case((desc["backend"], tuple(desc["store"]), desc.get("tier", "quick")))
+    if desc.get("mode") == "sched":
+        r = run_case(SCHEDMODE.from_desc(desc))
+    else:
+        r = run_case((desc["backend"], tuple(desc["store"]), desc.get("tier", "quick")))
     for v in r["viol"][:20]:
         print(v["clause"], v["detail"])
     return r["viol"]
